@@ -436,7 +436,8 @@ def effOf (z : Bool) (op : Op) (w : W) : Eff × String :=
     match w.slots[s]? with
     | some (.vec cs cap) =>
       let (out, fx) := intoBoxedSlice cs {}
-      (.upd s (.slice out (some cap)) 0 fx false, "ok")
+      -- a `Vec` method: it may (std's does) give spare capacity back to the arena, so the arena figures are the environment's
+      (.upd s (.slice out (some cap)) 0 fx true, "ok")
     | _ => skip
   | .sliceToVec s =>
     match w.slots[s]? with
